@@ -114,8 +114,10 @@ def static_lines(pl: PureLayer, tid: int, s: dict[str, Any]) -> list[dict[str, A
     R = fl['mediaDur'] * rl['ts'] // fl['ts']
     ref_lo = fl['mediaDur'] * 1000 // fl['ts']
     ref_hi = -((-fl['mediaDur'] * 1000) // fl['ts'])
-    md = timing.mediaDuration
-    mpd_us = (md.days * 86400 + md.seconds) * 10**6 + md.microseconds
+    # the declared duration as a manifest would carry it: rendered by the project's formatter, read by our parser
+    from dashlive.utils.date_time import toIsoDuration
+    from harness import mpd as _M
+    mpd_us = _M.parse_duration_us(toIsoDuration(timing.mediaDuration))
     common = {'tid': tid, 'ev': 'rep', 'mode': 'vod', 'rep': name, 'ts': rl['ts'], 'D': rl['segdur'], 'sn': rl['sn'],
               'durs': rl['durs'], 'st': rl['st'], 'R': R, 'init': 200, 'url': f'pure:{name}', 'now': '',
               'mpd_dur_ms': mpd_us // 1000 if mpd_us % 1000 == 0 else -1, 'ref_ms_lo': ref_lo, 'ref_ms_hi': ref_hi}
